@@ -514,6 +514,45 @@ def sweep_bsv(res, rng, reps):
             res.fail("crash:bsv", f"{type(e).__name__}: {e}", inp)
 
 
+def sweep_wide_indices(res, rng, reps):
+    """labels on wide registers (indices 31, 32, 63, 64, 65, 100, 1000 ...) whose qubit indices are Python ints or numpy
+    integers (indices often come out of numpy arrays): partition and qubit-wise commutation of every grouping, and the
+    reconstructor against the product of the outcome bits.  No dense matrix is needed for either."""
+    pool = [0, 1, 2, 5, 31, 32, 33, 62, 63, 64, 65, 100, 127, 128, 1000]
+    for _ in range(reps):
+        ity = rng.choice([int, int, np.int64, np.int32, np.int16])
+        idxs = [q for q in rng.sample(pool, rng.randint(2, 6)) if ity is not np.int16 or q < 2 ** 15]
+        labels = []
+        for _ in range(rng.randint(2, 8)):
+            qs = rng.sample(idxs, rng.randint(1, len(idxs)))
+            labels.append(PauliLabel([(ity(q), rng.randint(1, 3)) for q in qs]))
+        labels = list(dict.fromkeys(labels))
+        inp = {"labels": [show(p) for p in labels], "index_type": ity.__name__}
+        res.count(("wide", ity.__name__, tuple(inp["labels"])), bucket="wide_indices")
+        for fname, fn in GROUPINGS:
+            try:
+                check_groups(res, fname, fn(labels), labels, inp)
+            except Exception as e:  # noqa: BLE001
+                res.fail(f"crash:{fname}:wide_indices", f"{type(e).__name__}: {e}", inp)
+        for p in labels[:3]:
+            bits = 0
+            for q in idxs:
+                if rng.random() < 0.5:
+                    bits |= 1 << int(q)
+            want = 1
+            for q, _ in as_pairs(p):
+                if (bits >> int(q)) & 1:
+                    want = -want
+            try:
+                got = bitwise_pauli_reconstructor_factory(p)(bits)
+            except Exception as e:  # noqa: BLE001
+                res.fail("crash:reconstructor:wide_indices", f"{type(e).__name__}: {e}", dict(inp, pauli=show(p), bits=bits))
+                continue
+            if got != want:
+                res.fail("sweep:reconstructor:wide_indices", f"reconstructor gives {got}, the product of the outcome bits on the "
+                         f"support is {want}", dict(inp, pauli=show(p), bits=bits))
+
+
 def sweep_bits(res, rng, reps):
     for _ in range(reps):
         w = rng.choice([1, 3, 8, 16, 31, 32, 33, 62, 63, 64])
@@ -562,12 +601,14 @@ def main():
                    "every grouping strategy and measurement factory; distinct = (container, labels, coefficients)")
     if not thorough:
         sweep_bits(res, rng, 1500)
+        sweep_wide_indices(res, rng, 150)
         sweep_bsv(res, rng, 400)
         sweep_rejects(res, rng, 600)
         sweep_cached(res, rng, 80, False, t0 + 10)
         sweep_grouping_and_measurement(res, rng, 260, False, t0 + 24)
     else:
         sweep_bits(res, rng, 30000)
+        sweep_wide_indices(res, rng, 3000)
         sweep_bsv(res, rng, 6000)
         sweep_rejects(res, rng, 10000)
         sweep_cached(res, rng, 600, True, t0 + 75)
